@@ -97,6 +97,13 @@ Fixpoint fcands (c : jconf) (d : db) (plan : list elem) (ns : list string) : lis
            (flat_map (fun v => map (cons (n, v)) rest) (dom d n))
   end.
 
+(* the prefilter, evaluated per side first: the pixels of the rows agreeing with the assignment, then their intersection
+   (Proofs/JoinProofsX3.v fpre_pre: equal to Join.pre) *)
+Definition fpre (o : ovt) (ea eb : elem) (a : asg) : bool :=
+  let pa := map snd (filter (fun kp => agrees (ereq ea) (fst kp) a) (oget o (ename ea))) in
+  let pb := map snd (filter (fun kq => agrees (ereq eb) (fst kq) a) (oget o (ename eb))) in
+  existsb (fun p => existsb (N.eqb p) pb) pa.
+
 Definition frun_plan (c : jconf) (ov : N -> N -> bool) (s : st) (plan : list elem) (ns : list string) : qres :=
   if negb (covers c plan ns) then QIncomplete
   else
@@ -105,7 +112,7 @@ Definition frun_plan (c : jconf) (ov : N -> N -> bool) (s : st) (plan : list ele
     | SpNone => QOk base
     | SpMany => QInvalid
     | SpPair ea eb =>
-      let sqlrows := filter (pre (ovl s) ea eb) base in
+      let sqlrows := filter (fpre (ovl s) ea eb) base in
       if existsb (fun a => has_null (recs s) ea a || has_null (recs s) eb a) sqlrows then QCrash
       else QOk (filter (sp_overlap ov (recs s) ea eb) sqlrows)
     end.
@@ -225,4 +232,55 @@ Definition chk_tjoin (c : jconf) (tc : string * string * N) : bool :=
   | TJInvalid => N.eqb code 2
   | TJConnect => N.eqb code 0
   | TJNotTemporal => false
+  end.
+
+(* ---- queries with a join operand: (state, G, ds = closure (G ++ operand dims), operand dims, kind, given rows,
+        observation).  kind 0: a materialization of the query over the operand's dims (the model computes its rows
+        itself); kind 1: uploaded data IDs / a dataset search (rows given) ---- *)
+Definition ocase := (st * list string * list string * list string * N * list asg * (N * list (list Z)))%type.
+
+Definition frun_plan_f (c : jconf) (ov : N -> N -> bool) (s : st) (plan : list elem) (ns : list string)
+                       (f : asg -> bool) (nosp : bool) : qres :=
+  if negb (covers c plan ns) then QIncomplete
+  else
+    let base := filter f (fcands c (recs s) plan (rev ns)) in
+    match spatial_pair c ns with
+    | SpNone => QOk base
+    | SpMany => QInvalid
+    | SpPair ea eb =>
+      if nosp then QOk base
+      else
+        let sqlrows := filter (fpre (ovl s) ea eb) base in
+        if existsb (fun a => has_null (recs s) ea a || has_null (recs s) eb a) sqlrows then QCrash
+        else QOk (filter (sp_overlap ov (recs s) ea eb) sqlrows)
+    end.
+
+Definition fquery_op (c : jconf) (ov : N -> N -> bool) (s : st) (ds : list string) (o : operand) : qres :=
+  frun_plan_f c ov s (full_plan_op c ds o) ds (in_operand o) (op_embeds c ds o).
+
+Definition operand_of (c : jconf) (ov : N -> N -> bool) (s : st) (ons : list string) (kind : N) (rows : list asg) : option operand :=
+  if N.eqb kind 0 then match fquery c ov s ons with QOk l => Some (mkOpd ons l) | _ => None end
+  else Some (mkOpd ons rows).
+
+Definition chk_opquery (c : jconf) (ov : N -> N -> bool) (oc : ocase) : bool :=
+  let '(s, ns, ds, ons, kind, rows, (code, obs)) := oc in
+  (* ds must be the dependency closure of the requested and the operand's dimensions (C12 model) *)
+  match closure (ju c) (ns ++ ons) with GOk ds' => slist_eqb ds ds' | _ => false end &&
+  match operand_of c ov s ons kind rows with
+  | None => N.eqb code 1            (* the materialization itself raised *)
+  | Some o =>
+    match fquery_op c ov s ds o with
+    | QOk l => N.eqb code 0 && set_eqb zlist_eqb (map (row_vals ns) l) obs
+    | QCrash => N.eqb code 1
+    | QInvalid => N.eqb code 2
+    | QIncomplete => false
+    end
+  end.
+
+(* the pruned evaluation against the definition query_op *)
+Definition chk_opfast (c : jconf) (ov : N -> N -> bool) (oc : ocase) : bool :=
+  let '(s, ns, ds, ons, kind, rows, _) := oc in
+  match operand_of c ov s ons kind rows with
+  | None => true
+  | Some o => qres_eqb ds (fquery_op c ov s ds o) (query_op c ov s ds o)
   end.
